@@ -532,28 +532,28 @@ func tail(s string, n int) string {
 
 func writeEvidence(id, tier string, seed int, spec checkSpec, runs []harnessRun, e *symgo.Engine, wall float64, violations int, note string) {
 	type hEv struct {
-		Harness     string          `json:"harness"`
-		About       string          `json:"about,omitempty"`
-		Bounds      map[string]int  `json:"bounds"`
-		Paths       int             `json:"paths"`
-		Completed   int             `json:"paths_completed"`
-		Pruned      int             `json:"paths_pruned_by_assumptions"`
-		Inconcl     map[string]int  `json:"paths_inconclusive,omitempty"`
-		Obligations int             `json:"obligations"`
-		Discharged  int             `json:"discharged"`
-		Queries     map[string]int  `json:"queries"`
-		SolverS     float64         `json:"solver_s"`
-		WallS       float64         `json:"wall_s"`
-		Steps       int64           `json:"ssa_instructions_executed"`
-		MaxDepth    int             `json:"max_decision_depth"`
-		Exhausted   bool            `json:"exhausted"`
-		Reached     map[string]int  `json:"vacuity_witnesses_reached"`
-		Intrinsics  []string        `json:"intrinsics_hit"`
-		Funcs       map[string]int  `json:"functions_encoded_ssa_instrs"`
-		Replays     []replayOutcome `json:"replays,omitempty"`
-		MapOrder    bool            `json:"map_iteration_orders_explored,omitempty"`
-		Threads     int             `json:"threads,omitempty"`
-		Switches    *int            `json:"preemption_bound,omitempty"`
+		Harness     string            `json:"harness"`
+		About       string            `json:"about,omitempty"`
+		Bounds      map[string]int    `json:"bounds"`
+		Paths       int               `json:"paths"`
+		Completed   int               `json:"paths_completed"`
+		Pruned      int               `json:"paths_pruned_by_assumptions"`
+		Inconcl     map[string]int    `json:"paths_inconclusive,omitempty"`
+		Obligations int               `json:"obligations"`
+		Discharged  int               `json:"discharged"`
+		Queries     map[string]int    `json:"queries"`
+		SolverS     float64           `json:"solver_s"`
+		WallS       float64           `json:"wall_s"`
+		Steps       int64             `json:"ssa_instructions_executed"`
+		MaxDepth    int               `json:"max_decision_depth"`
+		Exhausted   bool              `json:"exhausted"`
+		Reached     map[string]int    `json:"vacuity_witnesses_reached"`
+		Intrinsics  []string          `json:"intrinsics_hit"`
+		Funcs       map[string]int    `json:"functions_encoded_ssa_instrs"`
+		Replays     []replayOutcome   `json:"replays,omitempty"`
+		MapOrder    bool              `json:"map_iteration_orders_explored,omitempty"`
+		Threads     int               `json:"threads,omitempty"`
+		Switches    *int              `json:"preemption_bound,omitempty"`
 		Validation  *validationResult `json:"translator_validation,omitempty"`
 	}
 	cov := map[string]interface{}{}
@@ -621,7 +621,7 @@ func writeEvidence(id, tier string, seed int, spec checkSpec, runs []harnessRun,
 	}
 	cov["translator_validation"] = map[string]interface{}{"concrete_scripts_agreeing_engine_vs_native": validated,
 		"path_witnesses_confirmed_natively": witnessed,
-		"what": "random concrete draw scripts executed by the engine (concrete mode, no solver) and by the native build of the same harness; failed assertions, reached labels and panics must agree"}
+		"what":                              "random concrete draw scripts executed by the engine (concrete mode, no solver) and by the native build of the same harness; failed assertions, reached labels and panics must agree"}
 	if evidenceCross != nil {
 		cov["cross_solver_recheck"] = evidenceCross
 	}
